@@ -157,3 +157,33 @@ func Render(s Schema) string {
 	}
 	return b.String()
 }
+
+// RenderSplit renders the schema as two files: the record "Root" (with the records defined inline in it, if it is
+// a union) in the root file, every other definition in a file the root imports. ok is false when there is nothing
+// to move to the imported file.
+func RenderSplit(s Schema, rootPkg, depPkg string) (root, dep string, ok bool) {
+	var rb, db strings.Builder
+	n := 0
+	for i := range s {
+		d := &s[i]
+		if d.Inner != "" {
+			continue
+		}
+		b := &db
+		if d.Name == "Root" {
+			b = &rb
+		} else {
+			n++
+		}
+		if d.Opcode != "" {
+			fmt.Fprintf(b, "[opcode(%s)]\n", d.Opcode)
+		}
+		renderDef(b, s, d, "")
+	}
+	if n == 0 || rb.Len() == 0 {
+		return "", "", false
+	}
+	root = "import \"./dep.bop\"\nconst string go_package = \"" + rootPkg + "\";\n" + rb.String()
+	dep = "const string go_package = \"" + depPkg + "\";\n" + db.String()
+	return root, dep, true
+}
